@@ -208,16 +208,9 @@ func (e *Engine) findDFA(haystack []byte) *Match {
 		return nil
 	}
 
-	// DFA found match ending at endPos - use reverse search to find start
-	// This is O(m) where m = match length, not O(n)
-	// For patterns without prefilter, estimate start position
-	// and search from there
-	estimatedStart := 0
-	if endPos > 100 {
-		// For long haystacks, start search closer to the match end
-		estimatedStart = endPos - 100
-	}
-	start, end, matched := e.pvSearchAt(haystack, estimatedStart)
+	// The DFA confirmed a match; its span comes from the NFA searched from the start:
+	// the match can be longer than any fixed window before its end.
+	start, end, matched := e.pvSearchAt(haystack, 0)
 	if !matched {
 		return nil
 	}
@@ -272,13 +265,9 @@ func (e *Engine) findAdaptive(haystack []byte) *Match {
 		endPos := e.dfa.Find(state.dfaCache, haystack)
 		if endPos != -1 {
 			e.putSearchState(state)
-			// DFA succeeded - get exact match bounds from NFA
-			// Use estimated start position for O(m) search instead of O(n)
-			estimatedStart := 0
-			if endPos > 100 {
-				estimatedStart = endPos - 100
-			}
-			start, end, matched := e.pvSearchAt(haystack, estimatedStart)
+			// DFA succeeded - get exact match bounds from the NFA searched from the
+			// start: the match can be longer than any fixed window before its end.
+			start, end, matched := e.pvSearchAt(haystack, 0)
 			if !matched {
 				return nil
 			}
